@@ -1507,7 +1507,12 @@ func AggrFunExpr(query *Query, current Map, expr sqlparser.AggrFunc, opts ...Exp
 	}
 	rs, ok := query.singletonExecutions[name]
 	if !ok {
-		slice, err := AggrFuncArgReader(query, map[string]any{"*": query.from}, sqlparser.Exprs{Exprs: expr.GetArgs()})
+		// whole-table aggregates read the rows that passed WHERE when the caller supplies them
+		source := map[string]any{"*": query.from}
+		if _, ok := current["*"]; ok {
+			source = current
+		}
+		slice, err := AggrFuncArgReader(query, source, sqlparser.Exprs{Exprs: expr.GetArgs()})
 		if err != nil {
 			return nil, err
 		}
@@ -1673,7 +1678,7 @@ func IsSelectAllAggregate(query *Query) bool {
 func ExecSelect(query *Query, current []any) ([]any, error) {
 	copy := make([]any, 0)
 	if IsSelectAllAggregate(query) {
-		rs, err := SelectExpr(query, nil, &query.selectDefinition)
+		rs, err := SelectExpr(query, Map{"*": current}, &query.selectDefinition)
 		if err != nil {
 			return nil, err
 		}
